@@ -72,6 +72,55 @@ statement only speaks about the case where the clock provides its readings, so t
     would pass), with `lvl` / `err` per exit path, the span's name / properties / ids and a range
     extent. Signatures `C05:macro:<n>-span-events-<c>-custom-completions:<enabled|disabled>:filter-<kind>:<runtime>:<form>:<exit>`.
     The number of times each filter was asked is counted in the evidence, not judged.
+
+(d) + (e) **user code that PANICS or RE-ENTERS while the span is being completed.** "Exactly one
+    completion ... however it ends" when the one completion attempt itself fails. Reading used: the
+    call that REACHED a completion object (or the span event that reached the emitter behind the default
+    completion) is the span's one completion, whether or not that handler then panics. `complete` /
+    `complete_with` consume the guard, so the guard is dropped while the handler's panic unwinds; that
+    drop must not complete the span again - neither on the default completion nor, through
+    `completion::default`, as `err = "panicked"` at the panic level ("no sequence ... can make it
+    complete twice"). The unchanged tree agrees: it takes state, data and completion out of the guard
+    BEFORE it calls the handler.
+    (d) guard programs: builder prefix x terminal (`complete`, `complete_with(c)`, drop, drop while a
+    user panic unwinds) x completion object (hand-written impl, `from_fn`, `completion::default` /
+    `from_emitter` over an emitter) whose first call panics (once per case, then behaves), re-enters
+    (runs four other guards on the same context from inside the call: started + completed, started +
+    dropped, never started, filtered out) or both; the panic is caught above or ends a thread of its
+    own. Oracle: completion calls per object (1 on the completion in force iff enabled and started,
+    else 0), the returned bool, `err` / level only when dropped by unwinding, 1 + 1 + 0 + 0 calls for
+    the nested guards, and a later plain span on the same thread is an ordinary root span with an
+    empty ambient context. Signatures `C05:guard:completed-twice:completion-panicked:<terminal>`,
+    `C05:guard:reentrant-completion:*`, `C05:guard:later-span-affected:*`.
+    (e) macro sites: every site of (c) x exit path (Ok / Err branch of `ok_lvl` / `err_lvl` / `err`,
+    end of a `#[span]` body, `guard.complete()`, `guard.complete_with(custom)`, `with_completion`,
+    early drop, cancellation, body panic for the non-panicking faults) on the generic runtime and the
+    `AmbientSlot`, where the runtime's EMITTER - or the custom completion handler - panics once,
+    re-enters (emits an event and runs two more span sites on the same runtime) or both while it
+    handles that completion; caught above, and for seven sites also left to end a thread. Oracle: span
+    events of the invocation at the emitter / custom completion calls exactly as in (c) (the attempt that
+    panicked counts; a second event - with or without `err = "panicked"` - is a violation), `lvl` /
+    `err` of the one event per exit path, nested emissions complete once each, no stray span event
+    without the span's properties, and a later span on the same thread is unaffected.
+    Signatures `C05:macro:2-span-events-0-custom-completions:enabled:emitter-panicked-on-completion:<runtime>:<form>:<exit>`.
+    Whether the handler's panic reaches the caller is counted, not judged. A handler that panics while
+    another panic is already unwinding is never scripted (the process would abort).
+
+(f) **nesting through a FILTERED-OUT span on the default ambient context** ("... and, when completed
+    inside its frame, its ids"). 13 sites (`span` / `info_span` / `debug_span`, with and without
+    `when:`, plain and `guard:` forms, sync and async) chained enabled -> rejected -> enabled and
+    deeper (2-6 spans), rejected by the runtime's real `min_filter` or by `when:`, with `Frame::push`
+    of ambient properties (and of an incoming trace) around the whole chain and between its spans, on a
+    generic `Runtime` over `ThreadLocalCtxt::shared()`, the erased runtime of an `AmbientSlot` over
+    `ThreadLocalCtxt::new()` and a slot initialised by `emit::setup()...init_slot` (default context and
+    id generator); exits: normal, innermost panic (caught), cancellation of the suspended innermost
+    body. Judged per enabled span's one completion event: trace id of the enclosing enabled span (or
+    incoming context), `span_parent` = the nearest ENABLED span above, a fresh span id, its own
+    properties, exactly the frames of the enabled spans above it (a rejected span leaves nothing), every
+    ambient property pushed above it, `lvl` / `err` per exit, a range extent; events arrive innermost
+    first, one per enabled span, none per rejected one; the ambient context is empty afterwards.
+    Signatures `C05:macro:completed-span:through-rejected-middle:<what>` (`under-rejected-root`,
+    `nested-on-default-ctxt` for the control shapes).
 */
 
 #![cfg_attr(miri, feature(stmt_expr_attributes, proc_macro_hygiene))]
@@ -902,6 +951,8 @@ thread_local! {
 fn custom(inv: u32) -> impl Completion {
     completion::from_fn(move |span: Span<&dyn ErasedProps>| {
         CUSTOM.with(|c| c.borrow_mut().push((inv, span.name().to_string())));
+        // part (e): the completion handler itself may be scripted to panic / re-enter (once)
+        fault_point("completion", inv);
     })
 }
 
@@ -1744,7 +1795,14 @@ impl emit::Emitter for TlRecorder {
     fn emit<E: emit::event::ToEvent>(&self, evt: E) {
         let evt = evt.to_event();
         let cap = Captured::of(&evt);
+        let is_span = cap.get("evt_kind") == Some("span");
+        let inv = cap.get("inv").and_then(|v| v.parse::<u32>().ok()).unwrap_or(0);
         O_EVENTS.with(|e| e.borrow_mut().push(cap));
+        // part (e): the destination may be scripted to panic / re-enter (once) while it handles a
+        // completed span
+        if is_span {
+            fault_point("emitter", inv);
+        }
     }
 
     fn blocking_flush(&self, _: std::time::Duration) -> bool {
@@ -1752,7 +1810,7 @@ impl emit::Emitter for TlRecorder {
     }
 }
 
-type ORt = Runtime<TlRecorder, TlFilter, ThreadLocalCtxt, FakeClock, CountingRng>;
+type ORt =Runtime<TlRecorder, TlFilter, ThreadLocalCtxt, FakeClock, CountingRng>;
 
 fn o_clock() -> FakeClock {
     let c = FakeClock::new(1_700_000_000_000_000_000);
@@ -1767,10 +1825,19 @@ static O_RT: std::sync::LazyLock<ORt> =
 /// the type-erased runtime of (c): the same components behind an `AmbientSlot`
 static O_SLOT: AmbientSlot = AmbientSlot::new();
 
+/// a slot initialised the way an application does it: `emit::setup()...init_slot(..)` - the default
+/// ambient context (`ThreadLocalCtxt`) and the default id generator, nothing of the monitor's in between
+/// (only the clock is the monitor's: `SystemTime` is not available under Miri isolation)
+static N_SLOT: AmbientSlot = AmbientSlot::new();
+
 fn init_once_runtimes() {
     std::sync::LazyLock::force(&O_RT);
     let _ = O_SLOT.init(Runtime::build(TlRecorder, TlFilter(false), ThreadLocalCtxt::new(), o_clock(), CountingRng::starting_at(1 << 40)));
     assert!(O_SLOT.is_enabled(), "the ambient slot of (c) is initialised");
+    if !cfg!(miri) {
+        let _init = emit::setup().emit_to(TlRecorder).emit_when(TlFilter(false)).with_clock(o_clock()).init_slot(&N_SLOT);
+        assert!(N_SLOT.is_enabled(), "the emit::setup() slot of (f) is initialised");
+    }
 }
 
 #[derive(Clone, Copy, Debug, PartialEq, Eq, Hash)]
@@ -2102,44 +2169,84 @@ fn script_answer(script: Script, lvl: Option<&str>, asked: u32) -> bool {
 }
 
 fn check_once(r: &mut Report, f: &OForm, exit: Exit, fs: FilterSetting, sel: RtSel, inv: u32) {
+    check_once_with(r, f, exit, fs, sel, inv, None)
+}
+
+/// Part (c) (`fault` = None) and part (e) (`fault` = what the emitter / the custom completion does,
+/// once, while it handles the completion of this invocation's span).
+fn check_once_with(r: &mut Report, f: &OForm, exit: Exit, fs: FilterSetting, sel: RtSel, inv: u32, fault: Option<Fault>) {
     r.eval();
     RT_PROBE.with(|p| *p.borrow_mut() = Probe { script: fs.rt, calls: Vec::new() });
     WHEN_PROBE.with(|p| *p.borrow_mut() = Probe { script: fs.when, calls: Vec::new() });
     O_EVENTS.with(|e| e.borrow_mut().clear());
     CUSTOM.with(|c| c.borrow_mut().clear());
     RETURNED.with(|c| c.borrow_mut().clear());
+    FAULT_FIRED.with(|c| c.borrow_mut().clear());
+    FAULT.with(|c| c.set(fault.map(|k| (k, sel, inv))));
     let outcome = (f.run)(sel, inv, exit);
-    let events = O_EVENTS.with(|e| std::mem::take(&mut *e.borrow_mut()));
-    let custom_calls = CUSTOM.with(|c| std::mem::take(&mut *c.borrow_mut()));
-    let returned = RETURNED.with(|c| std::mem::take(&mut *c.borrow_mut()));
+    FAULT.with(|c| c.set(None));
+    let fired = FAULT_FIRED.with(|c| std::mem::take(&mut *c.borrow_mut()));
+    let all_events = O_EVENTS.with(|e| std::mem::take(&mut *e.borrow_mut()));
+    // what the emitter received for THIS invocation's span, and what a re-entrant emitter / completion
+    // emitted while handling it (nested invocations carry `inv | NESTED_INV`)
+    let inv_text = inv.to_string();
+    let (events, nested_events): (Vec<Captured>, Vec<Captured>) = if fault.is_some() {
+        all_events.into_iter().partition(|e| e.get("evt_kind") == Some("span") && e.get("inv") == Some(inv_text.as_str()))
+    } else {
+        (all_events, Vec::new())
+    };
+    let all_custom = CUSTOM.with(|c| std::mem::take(&mut *c.borrow_mut()));
+    let (custom_calls, nested_custom): (Vec<(u32, String)>, Vec<(u32, String)>) = all_custom.into_iter().partition(|(i, _)| *i == inv || fault.is_none());
+    let returned: Vec<(u32, bool)> = RETURNED.with(|c| std::mem::take(&mut *c.borrow_mut())).into_iter().filter(|(i, _)| *i == inv || fault.is_none()).collect();
     let rt_calls = RT_PROBE.with(|p| std::mem::take(&mut p.borrow_mut().calls));
     let when_calls = WHEN_PROBE.with(|p| std::mem::take(&mut p.borrow_mut().calls));
     let show_calls = |c: &[ProbeCall]| c.iter().map(|c| json!({"answer": c.answer, "lvl_shown": c.lvl})).collect::<Vec<_>>();
+    let fault_label: Option<String> = fault.map(|k| match fired.first() {
+        Some(who) => format!("{}-{}-on-completion", who, k.verb()),
+        None => format!("armed-{}-not-reached", k.verb()),
+    });
     let case = || {
-        json!({"part": "macro-filter-once", "form": f.name, "exit": format!("{:?}", exit), "runtime": sel.name(),
+        json!({"part": if fault.is_some() { "macro-fault" } else { "macro-filter-once" }, "form": f.name, "exit": format!("{:?}", exit), "runtime": sel.name(),
                "filter_kind": fs.kind, "runtime_filter": format!("{:?}", fs.rt), "when_filter": if f.when { format!("{:?}", fs.when) } else { "none".to_string() },
                "runtime_filter_calls": show_calls(&rt_calls), "when_filter_calls": show_calls(&when_calls),
+               "fault": fault.map(|k| format!("{:?}", k)), "fault_fired_in": fired.clone(),
+               "nested_events": nested_events.iter().map(|e| e.to_json()).collect::<Vec<_>>(),
                "invocation": inv, "events": events.iter().map(|e| e.to_json()).collect::<Vec<_>>()})
     };
-    let sig_tail = format!("filter-{}:{}:{}:{:?}", fs.kind, sel.name(), f.name, exit);
+    let sig_tail = match &fault_label {
+        None => format!("filter-{}:{}:{}:{:?}", fs.kind, sel.name(), f.name, exit),
+        Some(l) => format!("{}:{}:{}:{:?}", l, sel.name(), f.name, exit),
+    };
 
     // enabled = the deciding filter's answer to the span at its START level (first answer)
     let deciding = if f.when { fs.when } else { fs.rt };
     let en = script_answer(deciding, f.default_lvl, 0);
-    r.observe(&format!("filter-once:invocations:{}", if en { "enabled" } else { "disabled" }), 1);
-    r.observe(&format!("filter-once:kind:{}", fs.kind), 1);
-    r.observe(&format!("filter-once:runtime:{}", sel.name()), 1);
-    r.observe("filter-once:span-events", events.len() as u64);
-    r.observe("filter-once:deciding-filter-answers", if f.when { when_calls.len() } else { rt_calls.len() } as u64);
+    let pfx = if fault.is_some() { "macro-fault" } else { "filter-once" };
+    r.observe(&format!("{}:invocations:{}", pfx, if en { "enabled" } else { "disabled" }), 1);
+    r.observe(&format!("{}:kind:{}", pfx, fs.kind), 1);
+    r.observe(&format!("{}:runtime:{}", pfx, sel.name()), 1);
+    r.observe(&format!("{}:span-events", pfx), events.len() as u64);
+    r.observe(&format!("{}:deciding-filter-answers", pfx), if f.when { when_calls.len() } else { rt_calls.len() } as u64);
     if f.when {
-        r.observe("filter-once:runtime-filter-asked-although-when-is-set", rt_calls.len() as u64);
+        r.observe(&format!("{}:runtime-filter-asked-although-when-is-set", pfx), rt_calls.len() as u64);
     }
-    r.nontrivial(&("macro-filter-once", f.name, format!("{:?}", exit), fs, sel));
+    if let Some(l) = &fault_label {
+        r.observe(&format!("macro-fault:{}", l), 1);
+    }
+    r.nontrivial(&(if fault.is_some() { "macro-fault" } else { "macro-filter-once" }, f.name, format!("{:?}", exit), fs, sel, fault));
 
     let panicked = outcome.is_err();
-    if panicked != (exit == Exit::Panic) {
+    // the one panic a faulty emitter / completion raises reaches the caller (nothing in between catches)
+    let fault_panicked = !fired.is_empty() && fault.map(|k| k.panics()).unwrap_or(false);
+    if !panicked && fault_panicked && exit != Exit::Panic {
+        // (whether the panic of user code reaches the caller is not C05's business: counted only)
+        r.observe("macro-fault:panic-did-not-reach-the-caller", 1);
+    } else if panicked != (exit == Exit::Panic || fault_panicked) {
         r.violation(&format!("C05:macro:unexpected-panic:{}", sig_tail), &format!("invocation outcome {:?}", outcome), case());
         return;
+    }
+    if fault_panicked {
+        r.observe("macro-fault:panics-raised-while-a-span-was-being-completed", 1);
     }
     let cancelled = match exit {
         Exit::Cancel(_) => !FINISHED.with(|c| c.get()),
@@ -2169,7 +2276,9 @@ fn check_once(r: &mut Report, f: &OForm, exit: Exit, fs: FilterSetting, sel: RtS
     // would the completed span's event be rejected if a filter were asked again? (the class this part exists for)
     let again_deciding = !script_answer(deciding, want_lvl, 1);
     let again_rt = !script_answer(fs.rt, want_lvl, if f.when { 0 } else { 1 });
-    if en && started {
+    if fault.is_some() {
+        // (part (e) runs under all-pass / all-reject filters: nothing to count here)
+    } else if en && started {
         if again_deciding || again_rt {
             r.observe("filter-once:enabled-at-start-and-a-second-ask-would-reject-the-completion", 1);
             r.observe(
@@ -2224,11 +2333,14 @@ fn check_once(r: &mut Report, f: &OForm, exit: Exit, fs: FilterSetting, sel: RtS
             );
         }
     }
+    if let Some(k) = fault {
+        check_fault_aftermath(r, sel, inv, k, &fired, &nested_events, &nested_custom, &sig_tail, &case);
+    }
     if want_events != 1 {
         return;
     }
     let Some(e) = events.first() else { return };
-    r.observe("filter-once:span-events-judged", 1);
+    r.observe(&format!("{}:span-events-judged", pfx), 1);
     let got_lvl = e.get("lvl");
     let got_err = e.get("err").map(|s| s.to_string());
     if got_lvl != want_lvl {
@@ -2278,13 +2390,1488 @@ fn once_jobs(all: &[OForm]) -> Vec<(usize, Exit, FilterSetting, RtSel)> {
     jobs
 }
 
+// ===========================================================================
+// (d) completions that panic or re-enter (guard programs)
+// ===========================================================================
+//
+// "Exactly one completion ... however it ends" when the completion handler itself fails: the call that
+// reached a completion object (or the span event that reached the emitter behind `completion::default`
+// / `completion::from_emitter`) IS the span's one completion, whether or not the handler then panics.
+// The guard is consumed by `complete` / `complete_with`, so it is dropped while that panic unwinds;
+// that drop must not complete the span a second time (neither on the default completion, nor - through
+// `completion::default` - as `err = "panicked"` at the panic level). Decided from the statement ("exactly
+// one completion", "no sequence ... can make it complete twice") and from its anchor: the guard takes
+// state, data and completion out of itself BEFORE it calls the handler.
+
+#[derive(Clone, Copy, Debug, PartialEq, Eq, Hash)]
+enum Behaviour {
+    Behave,
+    /// the first completion call of the case panics after it was recorded; later calls behave
+    PanicOnce,
+    /// the first completion call creates, starts, completes and drops other guards on the same context
+    Reenter,
+    ReenterThenPanicOnce,
+}
+
+impl Behaviour {
+    fn panics(self) -> bool {
+        matches!(self, Behaviour::PanicOnce | Behaviour::ReenterThenPanicOnce)
+    }
+    fn reenters(self) -> bool {
+        matches!(self, Behaviour::Reenter | Behaviour::ReenterThenPanicOnce)
+    }
+    fn label(self) -> &'static str {
+        match self {
+            Behaviour::Behave => "completion-behaved",
+            Behaviour::PanicOnce => "completion-panicked",
+            Behaviour::Reenter => "completion-reentered",
+            Behaviour::ReenterThenPanicOnce => "completion-reentered-and-panicked",
+        }
+    }
+}
+
+#[derive(Clone, Copy, Debug, PartialEq, Eq, Hash)]
+enum FTerminal {
+    Complete,
+    CompleteWith(usize),
+    Drop,
+    /// user code panics with the guard alive: the guard is dropped by the unwinding
+    UnwindDrop,
+}
+
+impl FTerminal {
+    fn name(self) -> &'static str {
+        match self {
+            FTerminal::Complete => "complete",
+            FTerminal::CompleteWith(_) => "complete_with",
+            FTerminal::Drop => "drop",
+            FTerminal::UnwindDrop => "drop-while-unwinding",
+        }
+    }
+}
+
+#[derive(Clone, Copy, Debug, PartialEq, Eq, Hash)]
+enum FOp {
+    WithName(usize),
+    WithProps(usize),
+    MapPropsIdentity,
+    WithCompletion(usize),
+    Start,
+}
+
+#[derive(Clone, Debug, PartialEq, Eq, Hash)]
+struct FaultProgram {
+    enabled: bool,
+    in_frame: bool,
+    completion0: usize,
+    ops: Vec<FOp>,
+    terminal: FTerminal,
+    behaviour: Behaviour,
+    /// run on a thread of its own and let the panic end that thread (instead of catching it)
+    on_thread_exit: bool,
+}
+
+fn gen_fault_program(g: &mut Rng) -> FaultProgram {
+    let len = g.usize(5);
+    let mut ops = Vec::new();
+    for _ in 0..len {
+        ops.push(match g.below(7) {
+            0 => FOp::WithName(g.usize(NAMES.len())),
+            1 => FOp::WithProps(g.usize(2)),
+            2 => FOp::MapPropsIdentity,
+            3 => FOp::WithCompletion(g.usize(N_COMPLETIONS)),
+            _ => FOp::Start,
+        });
+    }
+    // mostly started (that is where a completion runs at all), sometimes never
+    if g.chance(3, 4) && !ops.contains(&FOp::Start) {
+        let at = g.usize(ops.len() + 1);
+        ops.insert(at, FOp::Start);
+    }
+    let terminal = match g.below(7) {
+        0 | 1 => FTerminal::Complete,
+        2 | 3 => FTerminal::CompleteWith(g.usize(N_COMPLETIONS)),
+        4 | 5 => FTerminal::Drop,
+        _ => FTerminal::UnwindDrop,
+    };
+    let mut behaviour = match g.below(8) {
+        0 => Behaviour::Behave,
+        1..=4 => Behaviour::PanicOnce,
+        5 => Behaviour::Reenter,
+        _ => Behaviour::ReenterThenPanicOnce,
+    };
+    if terminal == FTerminal::UnwindDrop && behaviour.panics() {
+        // (a completion that panics while the user's panic unwinds aborts the process: never scripted)
+        behaviour = if behaviour.reenters() { Behaviour::Reenter } else { Behaviour::Behave };
+    }
+    FaultProgram {
+        enabled: g.chance(5, 6),
+        in_frame: g.chance(3, 4),
+        completion0: g.usize(N_COMPLETIONS),
+        ops,
+        terminal,
+        behaviour,
+        on_thread_exit: g.chance(1, 16),
+    }
+}
+
+/// Everything a fault program's completions saw; shared with a scoped thread, survives a panic.
+struct FaultState {
+    behaviour: Behaviour,
+    /// one panic and one re-entry per case
+    panic_armed: std::sync::atomic::AtomicBool,
+    reenter_armed: std::sync::atomic::AtomicBool,
+    calls: std::sync::Mutex<Vec<Call>>,
+    /// completion calls of the guards a re-entrant completion ran: which of them
+    nested: std::sync::Mutex<Vec<usize>>,
+    enabled_at_new: std::sync::Mutex<Option<bool>>,
+    returned: std::sync::Mutex<Option<bool>>,
+}
+
+fn lock<T>(m: &std::sync::Mutex<T>) -> std::sync::MutexGuard<'_, T> {
+    m.lock().unwrap_or_else(|e| e.into_inner())
+}
+
+impl FaultState {
+    /// A completion object (or the emitter behind one) was handed the span.
+    fn on_call(&self, by: usize, cap: Captured) {
+        use std::sync::atomic::Ordering::SeqCst;
+        lock(&self.calls).push(Call { by, cap });
+        if self.behaviour.reenters() && self.reenter_armed.swap(false, SeqCst) {
+            self.reenter();
+        }
+        if self.behaviour.panics() && self.panic_armed.swap(false, SeqCst) {
+            panic!("completion boom (scripted, once)");
+        }
+    }
+
+    /// Other guards, run from inside a completion call: started + completed (1 call), started + dropped
+    /// (1 call), never started (0), filtered out (0).
+    fn reenter(&self) {
+        let ctxt = ThreadLocalCtxt::shared();
+        let rng = CountingRng::starting_at(1 << 50);
+        for which in 0..4usize {
+            let pass = which != 3;
+            let (mut g, frame) = SpanGuard::new(
+                filter::from_fn(move |_| pass),
+                &ctxt,
+                FakeClock::new(5_000),
+                &rng,
+                NestedCompletion { st: self, which },
+                emit::Empty,
+                Path::new_raw("nested"),
+                "nested",
+                emit::Empty,
+            );
+            frame.call(move || match which {
+                0 => {
+                    g.start();
+                    g.complete();
+                }
+                1 => {
+                    g.start();
+                    drop(g);
+                }
+                2 => drop(g),
+                _ => {
+                    g.start();
+                    g.complete();
+                }
+            });
+        }
+    }
+}
+
+struct NestedCompletion<'s> {
+    st: &'s FaultState,
+    which: usize,
+}
+
+impl<'s> Completion for NestedCompletion<'s> {
+    fn complete<P: Props>(&self, _: Span<P>) {
+        lock(&self.st.nested).push(self.which);
+    }
+}
+
+struct FaultCompletion<'s> {
+    st: &'s FaultState,
+    by: usize,
+}
+
+impl<'s> Completion for FaultCompletion<'s> {
+    fn complete<P: Props>(&self, span: Span<P>) {
+        use emit::event::ToEvent;
+        let cap = Captured::of(&span.to_event());
+        self.st.on_call(self.by, cap);
+    }
+}
+
+struct FaultEmitter<'s> {
+    st: &'s FaultState,
+    by: usize,
+}
+
+impl<'s> emit::Emitter for FaultEmitter<'s> {
+    fn emit<E: emit::event::ToEvent>(&self, evt: E) {
+        let cap = Captured::of(&evt.to_event());
+        self.st.on_call(self.by, cap);
+    }
+
+    fn blocking_flush(&self, _: std::time::Duration) -> bool {
+        true
+    }
+}
+
+fn fault_body(p: &FaultProgram, st: &FaultState) {
+    let ctxt = ThreadLocalCtxt::shared();
+    let rng = CountingRng::new();
+    let clock = FakeClock::new(1_000_000_000_000);
+    clock.set_step(1_000);
+    let sets = [PropSet(vec![("a", 1)]), PropSet(vec![("b", 2), ("c", 3)])];
+    let c0 = FaultCompletion { st, by: 0 };
+    let c1 = completion::from_fn(|span: Span<&dyn ErasedProps>| {
+        use emit::event::ToEvent;
+        let cap = Captured::of(&span.to_event());
+        st.on_call(1, cap);
+    });
+    let c2 = completion::default(FaultEmitter { st, by: 2 }, &ctxt);
+    let c3 = completion::from_emitter(FaultEmitter { st, by: 3 });
+    let completions: [&dyn ErasedCompletion; N_COMPLETIONS] = [&c0, &c1, &c2, &c3];
+    let en = p.enabled;
+    let the_filter = filter::from_fn(move |_| en);
+    let (guard, frame): (Guard, _) = SpanGuard::new(
+        &the_filter,
+        &ctxt,
+        clock.clone(),
+        &rng,
+        completions[p.completion0],
+        ("ctxt_prop", 7),
+        Path::new_raw(MDLS[0]),
+        NAMES[0],
+        &sets[0] as &dyn ErasedProps,
+    );
+    *lock(&st.enabled_at_new) = Some(guard.is_enabled());
+    let run = || {
+        let mut g: Guard = guard;
+        for op in &p.ops {
+            g = match op {
+                FOp::WithName(i) => g.with_name(NAMES[*i]),
+                FOp::WithProps(i) => g.with_props(&sets[*i] as &dyn ErasedProps),
+                FOp::MapPropsIdentity => g.map_props(|p| p),
+                FOp::WithCompletion(c) => g.with_completion(completions[*c]),
+                FOp::Start => {
+                    let mut g = g;
+                    g.start();
+                    g
+                }
+            };
+        }
+        match p.terminal {
+            FTerminal::Complete => *lock(&st.returned) = Some(g.complete()),
+            FTerminal::CompleteWith(c) => *lock(&st.returned) = Some(g.complete_with(completions[c])),
+            FTerminal::Drop => drop(g),
+            FTerminal::UnwindDrop => {
+                let _alive = g;
+                panic!("user boom with the guard alive");
+            }
+        }
+    };
+    if p.in_frame {
+        frame.call(run);
+    } else {
+        drop(frame);
+        run();
+    }
+}
+
+/// A plain span on the same thread and context after the faulty one: (events, ambient props before it)
+fn later_guard() -> (Vec<Captured>, Vec<String>) {
+    let ctxt = ThreadLocalCtxt::shared();
+    let ambient = props_of(&ctxt);
+    let rec = Recorder::new();
+    let rng = CountingRng::starting_at(1 << 51);
+    let (mut g, frame) = SpanGuard::new(
+        filter::from_fn(|_| true),
+        &ctxt,
+        FakeClock::new(9_000),
+        &rng,
+        completion::default(rec.clone(), &ctxt),
+        emit::Empty,
+        Path::new_raw("later"),
+        "later",
+        emit::Empty,
+    );
+    frame.call(move || {
+        g.start();
+        g.complete();
+    });
+    (rec.take(), ambient)
+}
+
+fn fault_program_json(p: &FaultProgram) -> Json {
+    json!({
+        "enabled": p.enabled, "in_frame": p.in_frame, "completion0": COMPLETION_NAMES[p.completion0],
+        "ops": p.ops.iter().map(|o| format!("{:?}", o)).collect::<Vec<_>>(),
+        "terminal": format!("{:?}", p.terminal), "completion_behaviour": format!("{:?}", p.behaviour),
+        "panic_ends_the_thread": p.on_thread_exit,
+    })
+}
+
+fn check_fault_program(r: &mut Report, p: &FaultProgram, seed: u64, index: u64) {
+    use std::sync::atomic::AtomicBool;
+    r.eval();
+    let st = FaultState {
+        behaviour: p.behaviour,
+        panic_armed: AtomicBool::new(true),
+        reenter_armed: AtomicBool::new(true),
+        calls: Default::default(),
+        nested: Default::default(),
+        enabled_at_new: Default::default(),
+        returned: Default::default(),
+    };
+    let outcome: Result<(), String> = if p.on_thread_exit {
+        std::thread::scope(|s| s.spawn(|| quiet(|| fault_body(p, &st))).join()).map_err(|e| panic_message(&e))
+    } else {
+        catch(|| fault_body(p, &st))
+    };
+    let later = if p.on_thread_exit { None } else { Some(catch(later_guard)) };
+    let calls = std::mem::take(&mut *lock(&st.calls));
+    let nested = std::mem::take(&mut *lock(&st.nested));
+    let returned = *lock(&st.returned);
+    let enabled_at_new = *lock(&st.enabled_at_new);
+
+    // ---- the model ----
+    let started = p.ops.contains(&FOp::Start);
+    let mut current = p.completion0;
+    let mut name = 0usize;
+    for op in &p.ops {
+        match op {
+            FOp::WithCompletion(c) => current = *c,
+            FOp::WithName(i) => name = *i,
+            _ => {}
+        }
+    }
+    let completes_on = if p.enabled && started {
+        Some(match p.terminal {
+            FTerminal::CompleteWith(c) => c,
+            _ => current,
+        })
+    } else {
+        None
+    };
+    let terminal = p.terminal.name();
+    let label = p.behaviour.label();
+    let completion_panics = completes_on.is_some() && p.behaviour.panics();
+    let expect_panic = completion_panics || p.terminal == FTerminal::UnwindDrop;
+
+    let case = || {
+        json!({"part": "guard-fault", "seed": seed, "index": index, "program": fault_program_json(p),
+               "outcome": format!("{:?}", outcome), "returned": returned,
+               "completion_calls": calls.iter().map(|c| json!({"on": COMPLETION_NAMES[c.by], "span": c.cap.to_json()})).collect::<Vec<_>>(),
+               "nested_completion_calls": nested.clone()})
+    };
+    r.observe("guard-fault:programs", 1);
+    r.observe(&format!("guard-fault:{}:{}:{}", label, terminal, if completes_on.is_some() { "completes" } else if !p.enabled { "filtered-out" } else { "never-started" }), 1);
+    r.observe("guard-fault:completion-calls", calls.len() as u64);
+    if p.on_thread_exit {
+        r.observe("guard-fault:run-on-a-thread-of-its-own", 1);
+        r.observe("guard-fault:threads-ended-by-the-panic", outcome.is_err() as u64);
+    }
+    if completion_panics {
+        r.observe("guard-fault:panics-raised-inside-a-completion-call", 1);
+    }
+    r.nontrivial(&("guard-fault", p));
+
+    match (&outcome, expect_panic) {
+        (Err(msg), false) => {
+            r.violation(&format!("C05:guard:panic:{}:{}", label, terminal), &format!("the guard program panicked although nothing of the monitor's did: {}", msg), case());
+            return;
+        }
+        (Ok(()), true) => {
+            // (whether a handler's panic reaches the caller is not C05's business: counted only)
+            r.observe("guard-fault:panic-did-not-reach-the-caller", 1);
+        }
+        _ => {}
+    }
+    if enabled_at_new != Some(p.enabled) {
+        r.violation(
+            &format!("C05:guard:is_enabled-inconsistent:filter-{}:after-new", if p.enabled { "passed" } else { "rejected" }),
+            &format!("the filter answered {} but is_enabled() was {:?} at new", p.enabled, enabled_at_new),
+            case(),
+        );
+    }
+
+    let n = calls.len();
+    let by: Vec<&str> = calls.iter().map(|c| COMPLETION_NAMES[c.by]).collect();
+    match completes_on {
+        None => {
+            if n != 0 {
+                let why = if !p.enabled { "filtered-out" } else { "never-started" };
+                r.violation(&format!("C05:guard:completed-but-{}:{}:{}", why, label, terminal), &format!("a {} guard completed {} time(s) (on {:?})", why, n, by), case());
+            }
+        }
+        Some(want) => {
+            if n == 0 {
+                r.violation(&format!("C05:guard:never-completed:{}:{}", label, terminal), "an enabled, started guard reached no completion", case());
+            } else if n > 1 {
+                r.violation(
+                    &format!("C05:guard:completed-twice:{}:{}", label, terminal),
+                    &format!(
+                        "an enabled, started guard completed {} times (on {:?}), expected once on {}: the call that {} is the span's one completion, a later one (from the guard being dropped while that unwinds, or otherwise) is a second",
+                        n,
+                        by,
+                        COMPLETION_NAMES[want],
+                        if completion_panics { "panicked" } else { "was made" }
+                    ),
+                    case(),
+                );
+            }
+            if let Some(call) = calls.first() {
+                if call.by != want {
+                    r.violation(
+                        &format!("C05:guard:wrong-completion-object:{}:{}", label, terminal),
+                        &format!("completed on {} but the completion in force is {}", COMPLETION_NAMES[call.by], COMPLETION_NAMES[want]),
+                        case(),
+                    );
+                }
+                let cap = &call.cap;
+                if cap.get("span_name") != Some(NAMES[name]) || cap.get("evt_kind") != Some("span") {
+                    r.violation(
+                        &format!("C05:guard:completed-span:wrong-name-or-kind:{}", label),
+                        &format!("span_name {:?} (last set {:?}), evt_kind {:?}", cap.get("span_name"), NAMES[name], cap.get("evt_kind")),
+                        case(),
+                    );
+                }
+                if call.by == 2 {
+                    // the real default completion: `err` + the panic level iff the guard was dropped by
+                    // unwinding; the completion call that itself then panics was made outside any panic
+                    let (want_lvl, want_err) = if p.terminal == FTerminal::UnwindDrop { (Some("error"), Some("panicked")) } else { (None, None) };
+                    if cap.get("lvl") != want_lvl || cap.get("err") != want_err {
+                        r.violation(
+                            &format!("C05:guard:completed-span:wrong-lvl-or-err:{}:{}", label, terminal),
+                            &format!("lvl {:?} err {:?}, expected {:?} / {:?}", cap.get("lvl"), cap.get("err"), want_lvl, want_err),
+                            case(),
+                        );
+                    }
+                    if p.in_frame && (cap.get("trace_id").map(|t| t.len()) != Some(32) || cap.get("span_id").map(|t| t.len()) != Some(16) || cap.get("ctxt_prop") != Some("7")) {
+                        r.violation(
+                            "C05:guard:default-completion-in-frame-without-ids",
+                            &format!("trace_id={:?} span_id={:?} ctxt_prop={:?} on a span completed inside its frame", cap.get("trace_id"), cap.get("span_id"), cap.get("ctxt_prop")),
+                            case(),
+                        );
+                    }
+                }
+            }
+        }
+    }
+    if let Some(ret) = returned {
+        if ret != completes_on.is_some() {
+            r.violation(
+                &format!("C05:guard:{}-returned-{}:model-{}:{}", terminal, ret, if completes_on.is_some() { "completes" } else { "does-not-complete" }, label),
+                &format!("{} returned {} but the model says completed={} ({} completion calls)", terminal, ret, completes_on.is_some(), n),
+                case(),
+            );
+        }
+    }
+    // what a re-entrant completion ran: one completion for each of its two started guards, none for the others
+    let want_nested: Vec<usize> = if completes_on.is_some() && p.behaviour.reenters() { vec![0, 1] } else { Vec::new() };
+    if !want_nested.is_empty() {
+        r.observe("guard-fault:reentrant-completion-calls-judged", 1);
+    }
+    if nested != want_nested {
+        r.violation(
+            &format!("C05:guard:reentrant-completion:nested-guards-completed-{}-times-of-{}", nested.len().min(5), want_nested.len()),
+            &format!("the guards run from inside the completion call completed {:?} (0 = started + complete(), 1 = started + dropped, 2 = never started, 3 = filtered out), expected {:?}", nested, want_nested),
+            case(),
+        );
+    }
+    // a later span on the same thread
+    if let Some(later) = later {
+        r.observe("guard-fault:later-spans-judged", 1);
+        let mut wrong: Vec<(&str, String)> = Vec::new();
+        match later {
+            Err(msg) => wrong.push(("panicked", msg)),
+            Ok((evs, ambient)) => {
+                if !ambient.is_empty() {
+                    wrong.push(("ambient-context-not-empty", format!("{:?}", ambient)));
+                }
+                if evs.len() != 1 {
+                    wrong.push(("completion-count", format!("{} span events, expected 1", evs.len())));
+                }
+                if let Some(e) = evs.first() {
+                    if e.get("err").is_some() || e.get("lvl").is_some() {
+                        wrong.push(("treated-as-panicking", format!("lvl={:?} err={:?}", e.get("lvl"), e.get("err"))));
+                    }
+                    if e.get("span_parent").is_some() || e.get("trace_id").map(|t| t.len()) != Some(32) || e.get("span_id").map(|t| t.len()) != Some(16) {
+                        wrong.push(("ids", format!("trace_id={:?} span_id={:?} span_parent={:?} (expected a fresh root)", e.get("trace_id"), e.get("span_id"), e.get("span_parent"))));
+                    }
+                }
+            }
+        }
+        for (what, text) in wrong {
+            r.violation(&format!("C05:guard:later-span-affected:{}:{}:{}", what, label, terminal), &text, case());
+        }
+    }
+    if r.wants_sample() && completion_panics && index % 101 == 0 {
+        r.sample(|| case());
+    }
+}
+
+// ===========================================================================
+// (e) user code that panics or re-enters WHILE a span is being completed (macro sites)
+// ===========================================================================
+
+/// What the destination of the runtime (`TlRecorder`) or a custom completion handler (`custom`) does,
+/// ONCE, when it is handed the completed span of the armed invocation - afterwards it behaves.
+#[derive(Clone, Copy, Debug, PartialEq, Eq, Hash)]
+enum Fault {
+    PanicOnce,
+    /// emits an event and runs two more span sites on the same runtime from inside the handler
+    Reenter,
+    ReenterThenPanicOnce,
+}
+
+impl Fault {
+    fn panics(self) -> bool {
+        !matches!(self, Fault::Reenter)
+    }
+    fn reenters(self) -> bool {
+        !matches!(self, Fault::PanicOnce)
+    }
+    fn verb(self) -> &'static str {
+        match self {
+            Fault::PanicOnce => "panicked",
+            Fault::Reenter => "reentered",
+            Fault::ReenterThenPanicOnce => "reentered-and-panicked",
+        }
+    }
+}
+
+const FAULTS: [Fault; 3] = [Fault::PanicOnce, Fault::Reenter, Fault::ReenterThenPanicOnce];
+
+/// invocation ids of what a re-entrant handler runs
+const NESTED_INV: u32 = 0x8000_0000;
+/// invocation id of the control span that runs afterwards on the same thread
+const LATER_INV: u32 = 0x4000_0000;
+
+thread_local! {
+    /// armed fault of the invocation running on this thread: (what, on which runtime, invocation)
+    static FAULT: std::cell::Cell<Option<(Fault, RtSel, u32)>> = const { std::cell::Cell::new(None) };
+    /// who it fired in ("emitter" / "completion")
+    static FAULT_FIRED: RefCell<Vec<&'static str>> = const { RefCell::new(Vec::new()) };
+}
+
+/// Called by the emitter of the (c) / (e) runtimes for every span event and by `custom` completions.
+fn fault_point(who: &'static str, inv: u32) {
+    let Some((kind, sel, for_inv)) = FAULT.with(|c| c.get()) else { return };
+    if for_inv != inv {
+        return;
+    }
+    FAULT.with(|c| c.set(None)); // once, then behaves
+    FAULT_FIRED.with(|c| c.borrow_mut().push(who));
+    if kind.reenters() {
+        match sel {
+            RtSel::Generic => nested_emissions(&*O_RT, inv | NESTED_INV),
+            RtSel::Slot => nested_emissions(O_SLOT.get(), inv | NESTED_INV),
+        }
+    }
+    if kind.panics() {
+        panic!("{} boom (scripted, once)", who);
+    }
+}
+
+/// What a re-entrant handler does: an ordinary event, a span completed explicitly and a span that
+/// returns an `Err` - all on the runtime whose completion is being handled.
+fn nested_emissions<E: emit::Emitter, F: emit::Filter, C: emit::Ctxt, T: emit::Clock, R: emit::Rng>(rt: &Runtime<E, F, C, T, R>, ninv: u32) {
+    emit::info!(rt: *rt, "nested event {ninv}", ninv);
+    let _ = o_sync_guard(rt, ninv, Exit::GComplete);
+    let _ = o_sync_plain_result(rt, ninv, Exit::EarlyErr);
+}
+
+fn props_of<C: emit::Ctxt>(ctxt: C) -> Vec<String> {
+    ctxt.with_current(|p| {
+        let mut v = Vec::new();
+        let _ = p.for_each(|k, val| {
+            v.push(format!("{}={}", k, val));
+            ControlFlow::Continue(())
+        });
+        v
+    })
+}
+
+fn ambient_of(sel: RtSel) -> Vec<String> {
+    match sel {
+        RtSel::Generic => props_of(O_RT.ctxt()),
+        RtSel::Slot => props_of(O_SLOT.get().ctxt()),
+    }
+}
+
+/// Exactly one event and one completion per nested emission of a re-entrant handler; nothing else.
+/// Returns a description of what is wrong.
+fn judge_nested(inv: u32, reentered: bool, nested_events: &[Captured], nested_custom: &[(u32, String)]) -> Option<(String, String)> {
+    let ninv = (inv | NESTED_INV).to_string();
+    let spans: Vec<&Captured> = nested_events.iter().filter(|e| e.get("evt_kind") == Some("span")).collect();
+    let plain = nested_events.len() - spans.len();
+    let count = |name: &str| spans.iter().filter(|e| e.get("span_name") == Some(name) && e.get("inv") == Some(ninv.as_str())).count();
+    let (guard_n, res_n) = (count("o_sync_guard {inv}"), count("o_sync_plain_result {inv}"));
+    let want = if reentered { 1 } else { 0 };
+    if plain == want && guard_n == want && res_n == want && spans.len() == 2 * want && nested_custom.is_empty() {
+        return None;
+    }
+    let stray = spans.len() - (guard_n + res_n).min(spans.len());
+    let what = if stray > 0 {
+        // a span event that is neither this invocation's (it does not carry its `inv`) nor one of the
+        // nested sites': the span was completed again outside its frame
+        "extra-span-event-without-the-spans-properties".to_string()
+    } else {
+        format!("nested-completions:{}-{}-{}-of-{}", plain.min(2), guard_n.min(2), res_n.min(2), want)
+    };
+    Some((
+        what,
+        format!(
+            "besides this invocation's span the emitter received {} ordinary event(s), {} `o_sync_guard` and {} `o_sync_plain_result` span event(s) of the nested invocation and {} other span event(s); \
+             custom completions got {} nested call(s); expected {} / {} / {} / 0 / 0",
+            plain,
+            guard_n,
+            res_n,
+            stray,
+            nested_custom.len(),
+            want,
+            want,
+            want
+        ),
+    ))
+}
+
+/// After an invocation whose emitter / completion handler was faulty: what a re-entrant handler emitted
+/// completed exactly once each, and a later span on the same thread is an ordinary root span.
+fn check_fault_aftermath(
+    r: &mut Report,
+    sel: RtSel,
+    inv: u32,
+    k: Fault,
+    fired: &[&'static str],
+    nested_events: &[Captured],
+    nested_custom: &[(u32, String)],
+    sig_tail: &str,
+    case: &dyn Fn() -> Json,
+) {
+    let reentered = !fired.is_empty() && k.reenters();
+    if reentered {
+        r.observe("macro-fault:nested-emissions-judged", 1);
+    }
+    if let Some((what, text)) = judge_nested(inv, reentered, nested_events, nested_custom) {
+        r.violation(&format!("C05:macro:{}:{}", what, sig_tail), &text, case());
+    }
+    // a later span on the same thread
+    RT_PROBE.with(|p| *p.borrow_mut() = Probe { script: Script::Const(true), calls: Vec::new() });
+    WHEN_PROBE.with(|p| *p.borrow_mut() = Probe { script: Script::Const(true), calls: Vec::new() });
+    O_EVENTS.with(|e| e.borrow_mut().clear());
+    CUSTOM.with(|c| c.borrow_mut().clear());
+    RETURNED.with(|c| c.borrow_mut().clear());
+    let ambient_before = ambient_of(sel);
+    let later: fn(RtSel, u32, Exit) -> Result<(), String> = o_sync!(o_sync_guard);
+    let linv = (inv & !NESTED_INV) | LATER_INV;
+    let out = later(sel, linv, Exit::Normal);
+    let evs = O_EVENTS.with(|e| std::mem::take(&mut *e.borrow_mut()));
+    let ambient_after = ambient_of(sel);
+    r.observe("macro-fault:later-spans-judged", 1);
+    let mut wrong: Vec<(&str, String)> = Vec::new();
+    if !ambient_before.is_empty() || !ambient_after.is_empty() {
+        wrong.push(("ambient-context-not-empty", format!("ambient context before / after the later span: {:?} / {:?}", ambient_before, ambient_after)));
+    }
+    if out.is_err() {
+        wrong.push(("panicked", format!("the later span panicked: {:?}", out)));
+    }
+    if evs.len() != 1 {
+        wrong.push(("completion-count", format!("{} span event(s) for the later span, expected 1", evs.len())));
+    }
+    if let Some(e) = evs.first() {
+        if e.get("err").is_some() || e.get("lvl").is_some() {
+            wrong.push(("treated-as-panicking", format!("lvl={:?} err={:?} on a span that left normally after the panic was caught", e.get("lvl"), e.get("err"))));
+        }
+        if e.get("span_parent").is_some() || e.get("trace_id").map(|t| t.len()) != Some(32) || e.get("span_id").map(|t| t.len()) != Some(16) {
+            wrong.push(("ids", format!("trace_id={:?} span_id={:?} span_parent={:?} (expected a fresh root)", e.get("trace_id"), e.get("span_id"), e.get("span_parent"))));
+        }
+        if e.get("inv") != Some(linv.to_string().as_str()) || e.get("span_name") != Some("o_sync_guard {inv}") {
+            wrong.push(("content", format!("span_name={:?} inv={:?}", e.get("span_name"), e.get("inv"))));
+        }
+    }
+    for (what, text) in wrong {
+        r.violation(&format!("C05:macro:later-span-affected:{}:{}", what, sig_tail), &text, case());
+    }
+}
+
+const FAULT_PASS: FilterSetting = FilterSetting { kind: "fault-all-pass", rt: Script::Const(true), when: Script::Const(true) };
+const FAULT_REJECT: FilterSetting = FilterSetting { kind: "fault-all-reject", rt: Script::Const(false), when: Script::Const(false) };
+
+/// every (form, exit, filter setting, runtime, fault) of part (e)
+fn fault_jobs(all: &[OForm]) -> Vec<(usize, Exit, FilterSetting, RtSel, Fault)> {
+    let mut jobs = Vec::new();
+    for (fi, f) in all.iter().enumerate() {
+        for e in f.exits {
+            for k in FAULTS {
+                // (a second panic while the body's panic unwinds would abort the process: never scripted)
+                if *e == Exit::Panic && k.panics() {
+                    continue;
+                }
+                for sel in [RtSel::Generic, RtSel::Slot] {
+                    jobs.push((fi, *e, FAULT_PASS, sel, k));
+                    if k == Fault::PanicOnce {
+                        jobs.push((fi, *e, FAULT_REJECT, sel, k));
+                    }
+                }
+            }
+        }
+    }
+    jobs
+}
+
+// --- the same, with the panic NOT caught: it ends the thread --------------------------------------
+
+const TX_SITES: [(&str, Exit); 7] = [
+    ("o_sync_ok_debug", Exit::Normal),
+    ("o_sync_ok_debug", Exit::TailErr),
+    ("o_sync_plain_result", Exit::Normal),
+    ("o_sync_guard", Exit::GComplete),
+    ("o_sync_guard", Exit::GCompleteWith),
+    ("o_sync_guard", Exit::GWithCompletion),
+    ("o_async_ok_debug", Exit::Normal),
+];
+
+fn tx_run<E: emit::Emitter, F: emit::Filter, C: emit::Ctxt, T: emit::Clock, R: emit::Rng>(rt: &Runtime<E, F, C, T, R>, which: usize, inv: u32) {
+    let exit = TX_SITES[which].1;
+    match which {
+        0 | 1 => {
+            let _ = o_sync_ok_debug(rt, inv, exit);
+        }
+        2 => {
+            let _ = o_sync_plain_result(rt, inv, exit);
+        }
+        3 | 4 | 5 => {
+            let _ = o_sync_guard(rt, inv, exit);
+        }
+        _ => {
+            let _ = block_on(o_async_ok_debug(rt, inv, exit));
+        }
+    }
+}
+
+fn thread_exit_jobs() -> Vec<(usize, RtSel, Fault)> {
+    let mut v = Vec::new();
+    for which in 0..TX_SITES.len() {
+        for sel in [RtSel::Generic, RtSel::Slot] {
+            for k in FAULTS {
+                v.push((which, sel, k));
+            }
+        }
+    }
+    v
+}
+
+#[derive(Default)]
+struct TxSeen {
+    events: Vec<Captured>,
+    custom: Vec<(u32, String)>,
+    fired: Vec<&'static str>,
+}
+
+fn check_thread_exit(r: &mut Report, which: usize, sel: RtSel, k: Fault, inv: u32) {
+    r.eval();
+    let (form, exit) = TX_SITES[which];
+    let seen: std::sync::Mutex<TxSeen> = Default::default();
+    let died = std::thread::scope(|s| {
+        s.spawn(|| {
+            quiet(|| {
+                // collects what this thread's emitter / completions saw when the thread ends, however it ends
+                struct Flush<'a>(&'a std::sync::Mutex<TxSeen>);
+                impl Drop for Flush<'_> {
+                    fn drop(&mut self) {
+                        let mut g = self.0.lock().unwrap_or_else(|e| e.into_inner());
+                        g.events = O_EVENTS.with(|e| std::mem::take(&mut *e.borrow_mut()));
+                        g.custom = CUSTOM.with(|c| std::mem::take(&mut *c.borrow_mut()));
+                        g.fired = FAULT_FIRED.with(|c| std::mem::take(&mut *c.borrow_mut()));
+                    }
+                }
+                RT_PROBE.with(|p| *p.borrow_mut() = Probe { script: Script::Const(true), calls: Vec::new() });
+                WHEN_PROBE.with(|p| *p.borrow_mut() = Probe { script: Script::Const(true), calls: Vec::new() });
+                FAULT.with(|c| c.set(Some((k, sel, inv))));
+                let _flush = Flush(&seen);
+                match sel {
+                    RtSel::Generic => tx_run(&*O_RT, which, inv),
+                    RtSel::Slot => tx_run(O_SLOT.get(), which, inv),
+                }
+            })
+        })
+        .join()
+        .is_err()
+    });
+    let seen = seen.into_inner().unwrap_or_else(|e| e.into_inner());
+    let inv_text = inv.to_string();
+    let (events, nested_events): (Vec<Captured>, Vec<Captured>) =
+        seen.events.into_iter().partition(|e| e.get("evt_kind") == Some("span") && e.get("inv") == Some(inv_text.as_str()));
+    let (custom_calls, nested_custom): (Vec<(u32, String)>, Vec<(u32, String)>) = seen.custom.into_iter().partition(|(i, _)| *i == inv);
+    let label = match seen.fired.first() {
+        Some(who) => format!("{}-{}-on-completion", who, k.verb()),
+        None => format!("armed-{}-not-reached", k.verb()),
+    };
+    let sig_tail = format!("{}:observed-on-thread-exit:{}:{}:{:?}", label, sel.name(), form, exit);
+    let case = || {
+        json!({"part": "macro-fault-thread-exit", "site": which, "form": form, "exit": format!("{:?}", exit), "runtime": sel.name(), "fault": format!("{:?}", k),
+               "fault_fired_in": seen.fired.clone(), "thread_died": died, "invocation": inv,
+               "events": events.iter().map(|e| e.to_json()).collect::<Vec<_>>(),
+               "nested_events": nested_events.iter().map(|e| e.to_json()).collect::<Vec<_>>()})
+    };
+    r.observe("macro-fault:thread-exit:invocations", 1);
+    r.observe(&format!("macro-fault:thread-exit:{}", label), 1);
+    r.observe("macro-fault:thread-exit:threads-ended-by-the-panic", died as u64);
+    r.nontrivial(&("macro-fault-thread-exit", which, sel, k));
+    let should_die = !seen.fired.is_empty() && k.panics();
+    if died && !should_die {
+        r.violation(&format!("C05:macro:unexpected-panic:{}", sig_tail), "the thread ended with a panic nothing of the monitor's raised", case());
+        return;
+    }
+    let to_custom = matches!(exit, Exit::GCompleteWith | Exit::GWithCompletion);
+    let (want_events, want_custom) = if to_custom { (0, 1) } else { (1, 0) };
+    if events.len() != want_events || custom_calls.len() != want_custom {
+        r.violation(
+            &format!("C05:macro:{}-span-events-{}-custom-completions:enabled:{}", events.len().min(2), custom_calls.len().min(2), sig_tail),
+            &format!(
+                "expected {} span event(s) and {} custom completion call(s) for the one invocation on that thread, got {} and {} (the attempt that panicked counts as the completion)",
+                want_events,
+                want_custom,
+                events.len(),
+                custom_calls.len()
+            ),
+            case(),
+        );
+    }
+    let reentered = !seen.fired.is_empty() && k.reenters();
+    if let Some((what, text)) = judge_nested(inv, reentered, &nested_events, &nested_custom) {
+        r.violation(&format!("C05:macro:{}:{}", what, sig_tail), &text, case());
+    }
+}
+
+// ===========================================================================
+// (f) nesting through a filtered-out span on the DEFAULT ambient context
+// ===========================================================================
+//
+// "... and, when completed inside its frame, its ids": the one completion event of an enabled span that
+// was started below a REJECTED span, which itself sits below an enabled one, on a runtime whose context
+// is the real `ThreadLocalCtxt` (a generic `Runtime`, the type-erased runtime of an `AmbientSlot`, and a
+// slot initialised by `emit::setup()...init_slot`). The rejected span contributes nothing: the inner span
+// is in the outer enabled span's trace, its parent is the outer enabled span, its own span id is fresh,
+// and the ambient properties pushed (`Frame::push`) around and between the spans are still on its event.
+// (C04 judges the tree relations with its interpreter; this is the completion-event clause of C05.)
+
+#[derive(Clone, Copy)]
+struct EnWhen;
+
+impl emit::Filter for EnWhen {
+    fn matches<E: emit::event::ToEvent>(&self, evt: E) -> bool {
+        evt.to_event().props().pull::<bool, _>("en") != Some(false)
+    }
+}
+
+#[derive(Clone, Copy, Debug, PartialEq, Eq, Hash)]
+enum NSite {
+    SInfo,
+    SDebug,
+    SPlain,
+    SWhen,
+    SInfoWhen,
+    SGuardDebug,
+    SGuardWhen,
+    AInfo,
+    ADebug,
+    APlain,
+    AWhen,
+    AGuardDebug,
+    AGuardWhen,
+}
+
+const SYNC_SITES: [NSite; 7] = [NSite::SInfo, NSite::SDebug, NSite::SPlain, NSite::SWhen, NSite::SInfoWhen, NSite::SGuardDebug, NSite::SGuardWhen];
+const ASYNC_SITES: [NSite; 6] = [NSite::AInfo, NSite::ADebug, NSite::APlain, NSite::AWhen, NSite::AGuardDebug, NSite::AGuardWhen];
+
+impl NSite {
+    fn name(self) -> &'static str {
+        match self {
+            NSite::SInfo => "n_s_info",
+            NSite::SDebug => "n_s_debug",
+            NSite::SPlain => "n_s_plain",
+            NSite::SWhen => "n_s_when",
+            NSite::SInfoWhen => "n_s_info_when",
+            NSite::SGuardDebug => "n_s_guard_debug",
+            NSite::SGuardWhen => "n_s_guard_when",
+            NSite::AInfo => "n_a_info",
+            NSite::ADebug => "n_a_debug",
+            NSite::APlain => "n_a_plain",
+            NSite::AWhen => "n_a_when",
+            NSite::AGuardDebug => "n_a_guard_debug",
+            NSite::AGuardWhen => "n_a_guard_when",
+        }
+    }
+    fn is_async(self) -> bool {
+        ASYNC_SITES.contains(&self)
+    }
+    fn lvl(self) -> Option<&'static str> {
+        match self {
+            NSite::SInfo | NSite::SInfoWhen | NSite::AInfo => Some("info"),
+            NSite::SDebug | NSite::SGuardDebug | NSite::ADebug | NSite::AGuardDebug => Some("debug"),
+            _ => None,
+        }
+    }
+    fn when(self) -> bool {
+        matches!(self, NSite::SWhen | NSite::SInfoWhen | NSite::SGuardWhen | NSite::AWhen | NSite::AGuardWhen)
+    }
+    fn guard(self) -> bool {
+        matches!(self, NSite::SGuardDebug | NSite::SGuardWhen | NSite::AGuardDebug | NSite::AGuardWhen)
+    }
+    /// `when:` replaces the runtime's filter (C01); otherwise the runtime's `min_filter(min)` decides on
+    /// the attribute's level (unleveled = the documented default, info)
+    fn enabled(self, en: bool, min: &str) -> bool {
+        if self.when() {
+            en
+        } else {
+            rank(self.lvl().unwrap_or("info")) >= rank(min)
+        }
+    }
+}
+
+const AMB_KEYS: [&str; 3] = ["amb_a", "amb_b", "amb_c"];
+
+#[derive(Clone, Copy, Debug, PartialEq, Eq, Hash)]
+enum Link {
+    Span(NSite, bool),
+    /// `Frame::push(ctxt, (key, value))` around everything below
+    Push(usize, u64),
+    /// `Frame::push(ctxt, [(key, value), (key2, value2)])`
+    Push2(usize, u64, usize, u64),
+    /// an incoming trace: `Frame::push(ctxt, SpanCtxt::new(trace, None, span))`
+    PushIds(u64),
+}
+
+#[derive(Clone, Copy, Debug, PartialEq, Eq, Hash)]
+enum NExit {
+    Normal,
+    /// the innermost body panics; caught above everything
+    Panic,
+    /// (all-async chains) polled once, dropped while the innermost body is suspended
+    Cancel,
+}
+
+#[derive(Clone, Copy, Debug, PartialEq, Eq, Hash)]
+enum NRt {
+    Generic,
+    Slot,
+    Setup,
+}
+
+impl NRt {
+    fn name(self) -> &'static str {
+        match self {
+            NRt::Generic => "generic-runtime",
+            NRt::Slot => "ambient-slot",
+            NRt::Setup => "setup-init_slot",
+        }
+    }
+}
+
+#[derive(Clone, Debug, PartialEq, Eq, Hash)]
+struct NestCase {
+    chain: Vec<Link>,
+    /// the runtime's filter is the real `emit::level::min_filter(min)`
+    min: &'static str,
+    exit: NExit,
+    is_async: bool,
+    rt: NRt,
+}
+
+thread_local! {
+    /// (depth, value returned by `guard.complete()`) of the guard-form sites
+    static NRET: RefCell<Vec<(u32, bool)>> = const { RefCell::new(Vec::new()) };
+}
+
+fn incoming_ids(n: u64) -> SpanCtxt {
+    SpanCtxt::new(emit::TraceId::from_u128(0xabc0_0000_0000_0000_0000_0000_0000_0000u128 + n as u128 + 1), None, emit::SpanId::from_u64(0x0def_0000_0000_0000u64 + n + 1))
+}
+
+fn nest_sync<E: emit::Emitter, F: emit::Filter, C: emit::Ctxt, T: emit::Clock, R: emit::Rng>(rt: &Runtime<E, F, C, T, R>, c: &NestCase, at: usize, inv: u32) {
+    let Some(link) = c.chain.get(at) else {
+        if c.exit == NExit::Panic {
+            panic!("boom");
+        }
+        return;
+    };
+    let depth = at as u32;
+    match *link {
+        Link::Push(k, v) => emit::Frame::push(rt.ctxt(), (AMB_KEYS[k], v)).call(|| nest_sync(rt, c, at + 1, inv)),
+        Link::Push2(k, v, k2, v2) => emit::Frame::push(rt.ctxt(), [(AMB_KEYS[k], v), (AMB_KEYS[k2], v2)]).call(|| nest_sync(rt, c, at + 1, inv)),
+        Link::PushIds(n) => emit::Frame::push(rt.ctxt(), incoming_ids(n)).call(|| nest_sync(rt, c, at + 1, inv)),
+        Link::Span(site, en) => match site {
+            NSite::SInfo => n_s_info(rt, c, at, inv, depth),
+            NSite::SDebug => n_s_debug(rt, c, at, inv, depth),
+            NSite::SPlain => n_s_plain(rt, c, at, inv, depth),
+            NSite::SWhen => n_s_when(rt, c, at, inv, depth, en),
+            NSite::SInfoWhen => n_s_info_when(rt, c, at, inv, depth, en),
+            NSite::SGuardDebug => n_s_guard_debug(rt, c, at, inv, depth),
+            NSite::SGuardWhen => n_s_guard_when(rt, c, at, inv, depth, en),
+            _ => unreachable!("async site in the sync part of a chain"),
+        },
+    }
+}
+
+fn nest_async<'a, E: emit::Emitter, F: emit::Filter, C: emit::Ctxt, T: emit::Clock, R: emit::Rng>(
+    rt: &'a Runtime<E, F, C, T, R>,
+    c: &'a NestCase,
+    at: usize,
+    inv: u32,
+) -> Pin<Box<dyn Future<Output = ()> + 'a>> {
+    Box::pin(async move {
+        let Some(link) = c.chain.get(at) else {
+            YieldNow(false).await;
+            match c.exit {
+                NExit::Normal => {}
+                NExit::Panic => panic!("boom"),
+                NExit::Cancel => loop {
+                    YieldNow(false).await;
+                },
+            }
+            return;
+        };
+        let depth = at as u32;
+        match *link {
+            Link::Push(k, v) => emit::Frame::push(rt.ctxt(), (AMB_KEYS[k], v)).in_future(nest_async(rt, c, at + 1, inv)).await,
+            Link::Push2(k, v, k2, v2) => emit::Frame::push(rt.ctxt(), [(AMB_KEYS[k], v), (AMB_KEYS[k2], v2)]).in_future(nest_async(rt, c, at + 1, inv)).await,
+            Link::PushIds(n) => emit::Frame::push(rt.ctxt(), incoming_ids(n)).in_future(nest_async(rt, c, at + 1, inv)).await,
+            Link::Span(site, en) => match site {
+                NSite::AInfo => n_a_info(rt, c, at, inv, depth).await,
+                NSite::ADebug => n_a_debug(rt, c, at, inv, depth).await,
+                NSite::APlain => n_a_plain(rt, c, at, inv, depth).await,
+                NSite::AWhen => n_a_when(rt, c, at, inv, depth, en).await,
+                NSite::AGuardDebug => n_a_guard_debug(rt, c, at, inv, depth).await,
+                NSite::AGuardWhen => n_a_guard_when(rt, c, at, inv, depth, en).await,
+                // a sync span site called from inside an async span: everything below it is sync
+                _ => nest_sync(rt, c, at, inv),
+            },
+        }
+    })
+}
+
+#[emit::info_span(rt: *rt, "n_s_info {inv}", inv, depth, at_n_s_info: depth)]
+fn n_s_info<E: emit::Emitter, F: emit::Filter, C: emit::Ctxt, T: emit::Clock, R: emit::Rng>(rt: &Runtime<E, F, C, T, R>, c: &NestCase, at: usize, inv: u32, depth: u32) {
+    nest_sync(rt, c, at + 1, inv)
+}
+
+#[emit::debug_span(rt: *rt, "n_s_debug {inv}", inv, depth, at_n_s_debug: depth)]
+fn n_s_debug<E: emit::Emitter, F: emit::Filter, C: emit::Ctxt, T: emit::Clock, R: emit::Rng>(rt: &Runtime<E, F, C, T, R>, c: &NestCase, at: usize, inv: u32, depth: u32) {
+    nest_sync(rt, c, at + 1, inv)
+}
+
+#[emit::span(rt: *rt, "n_s_plain {inv}", inv, depth, at_n_s_plain: depth)]
+fn n_s_plain<E: emit::Emitter, F: emit::Filter, C: emit::Ctxt, T: emit::Clock, R: emit::Rng>(rt: &Runtime<E, F, C, T, R>, c: &NestCase, at: usize, inv: u32, depth: u32) {
+    nest_sync(rt, c, at + 1, inv)
+}
+
+#[emit::span(rt: *rt, when: EnWhen, "n_s_when {inv}", inv, depth, at_n_s_when: depth, en)]
+fn n_s_when<E: emit::Emitter, F: emit::Filter, C: emit::Ctxt, T: emit::Clock, R: emit::Rng>(rt: &Runtime<E, F, C, T, R>, c: &NestCase, at: usize, inv: u32, depth: u32, en: bool) {
+    nest_sync(rt, c, at + 1, inv)
+}
+
+#[emit::info_span(rt: *rt, when: EnWhen, "n_s_info_when {inv}", inv, depth, at_n_s_info_when: depth, en)]
+fn n_s_info_when<E: emit::Emitter, F: emit::Filter, C: emit::Ctxt, T: emit::Clock, R: emit::Rng>(rt: &Runtime<E, F, C, T, R>, c: &NestCase, at: usize, inv: u32, depth: u32, en: bool) {
+    nest_sync(rt, c, at + 1, inv)
+}
+
+#[emit::debug_span(rt: *rt, guard: g, "n_s_guard_debug {inv}", inv, depth, at_n_s_guard_debug: depth)]
+fn n_s_guard_debug<E: emit::Emitter, F: emit::Filter, C: emit::Ctxt, T: emit::Clock, R: emit::Rng>(rt: &Runtime<E, F, C, T, R>, c: &NestCase, at: usize, inv: u32, depth: u32) {
+    nest_sync(rt, c, at + 1, inv);
+    let ret = g.complete();
+    NRET.with(|v| v.borrow_mut().push((depth, ret)));
+}
+
+#[emit::span(rt: *rt, when: EnWhen, guard: g, "n_s_guard_when {inv}", inv, depth, at_n_s_guard_when: depth, en)]
+fn n_s_guard_when<E: emit::Emitter, F: emit::Filter, C: emit::Ctxt, T: emit::Clock, R: emit::Rng>(rt: &Runtime<E, F, C, T, R>, c: &NestCase, at: usize, inv: u32, depth: u32, en: bool) {
+    nest_sync(rt, c, at + 1, inv);
+    let ret = g.complete();
+    NRET.with(|v| v.borrow_mut().push((depth, ret)));
+}
+
+#[emit::info_span(rt: *rt, "n_a_info {inv}", inv, depth, at_n_a_info: depth)]
+async fn n_a_info<E: emit::Emitter, F: emit::Filter, C: emit::Ctxt, T: emit::Clock, R: emit::Rng>(rt: &Runtime<E, F, C, T, R>, c: &NestCase, at: usize, inv: u32, depth: u32) {
+    nest_async(rt, c, at + 1, inv).await
+}
+
+#[emit::debug_span(rt: *rt, "n_a_debug {inv}", inv, depth, at_n_a_debug: depth)]
+async fn n_a_debug<E: emit::Emitter, F: emit::Filter, C: emit::Ctxt, T: emit::Clock, R: emit::Rng>(rt: &Runtime<E, F, C, T, R>, c: &NestCase, at: usize, inv: u32, depth: u32) {
+    nest_async(rt, c, at + 1, inv).await
+}
+
+#[emit::span(rt: *rt, "n_a_plain {inv}", inv, depth, at_n_a_plain: depth)]
+async fn n_a_plain<E: emit::Emitter, F: emit::Filter, C: emit::Ctxt, T: emit::Clock, R: emit::Rng>(rt: &Runtime<E, F, C, T, R>, c: &NestCase, at: usize, inv: u32, depth: u32) {
+    nest_async(rt, c, at + 1, inv).await
+}
+
+#[emit::span(rt: *rt, when: EnWhen, "n_a_when {inv}", inv, depth, at_n_a_when: depth, en)]
+async fn n_a_when<E: emit::Emitter, F: emit::Filter, C: emit::Ctxt, T: emit::Clock, R: emit::Rng>(rt: &Runtime<E, F, C, T, R>, c: &NestCase, at: usize, inv: u32, depth: u32, en: bool) {
+    nest_async(rt, c, at + 1, inv).await
+}
+
+#[emit::debug_span(rt: *rt, guard: g, "n_a_guard_debug {inv}", inv, depth, at_n_a_guard_debug: depth)]
+async fn n_a_guard_debug<E: emit::Emitter, F: emit::Filter, C: emit::Ctxt, T: emit::Clock, R: emit::Rng>(rt: &Runtime<E, F, C, T, R>, c: &NestCase, at: usize, inv: u32, depth: u32) {
+    nest_async(rt, c, at + 1, inv).await;
+    let ret = g.complete();
+    NRET.with(|v| v.borrow_mut().push((depth, ret)));
+}
+
+#[emit::span(rt: *rt, when: EnWhen, guard: g, "n_a_guard_when {inv}", inv, depth, at_n_a_guard_when: depth, en)]
+async fn n_a_guard_when<E: emit::Emitter, F: emit::Filter, C: emit::Ctxt, T: emit::Clock, R: emit::Rng>(rt: &Runtime<E, F, C, T, R>, c: &NestCase, at: usize, inv: u32, depth: u32, en: bool) {
+    nest_async(rt, c, at + 1, inv).await;
+    let ret = g.complete();
+    NRET.with(|v| v.borrow_mut().push((depth, ret)));
+}
+
+fn nest_go<E: emit::Emitter, F: emit::Filter, C: emit::Ctxt, T: emit::Clock, R: emit::Rng>(rt: &Runtime<E, F, C, T, R>, c: &NestCase, inv: u32) -> Vec<String> {
+    if c.is_async {
+        match c.exit {
+            NExit::Cancel => poll_then_drop(nest_async(rt, c, 0, inv), 1),
+            _ => block_on(nest_async(rt, c, 0, inv)),
+        }
+    } else {
+        nest_sync(rt, c, 0, inv)
+    }
+    props_of(rt.ctxt())
+}
+
+/// Run the chain; `Ok(ambient props left behind)` or the panic message. (A panic leaves through every
+/// frame; the ambient context is read again afterwards.)
+fn nest_run(c: &NestCase, inv: u32) -> (Result<Vec<String>, String>, Vec<String>) {
+    let out = catch(|| match c.rt {
+        NRt::Generic => nest_go(&*O_RT, c, inv),
+        NRt::Slot => nest_go(O_SLOT.get(), c, inv),
+        NRt::Setup => nest_go(N_SLOT.get(), c, inv),
+    });
+    let after = match c.rt {
+        NRt::Generic => props_of(O_RT.ctxt()),
+        NRt::Slot => props_of(O_SLOT.get().ctxt()),
+        NRt::Setup => props_of(N_SLOT.get().ctxt()),
+    };
+    (out, after)
+}
+
+fn nest_rts() -> Vec<NRt> {
+    if cfg!(miri) {
+        vec![NRt::Generic, NRt::Slot]
+    } else {
+        vec![NRt::Generic, NRt::Slot, NRt::Setup]
+    }
+}
+
+/// Directed cases: every (outer, middle, inner) triple of sites x runtime filter level in which the
+/// outer span is enabled, the middle one rejected and the inner one enabled - bare, with ambient
+/// properties pushed around the whole thing, and with pushes around and between - x exit x runtime.
+fn nest_directed() -> Vec<NestCase> {
+    let mut v = Vec::new();
+    for is_async in [false, true] {
+        let sites: &[NSite] = if is_async { &ASYNC_SITES } else { &SYNC_SITES };
+        // (an async chain may end in sync sites)
+        let inner_sites: Vec<NSite> = if is_async { ASYNC_SITES.iter().chain(SYNC_SITES[..3].iter()).copied().collect() } else { SYNC_SITES.to_vec() };
+        for &outer in sites {
+            for &mid in sites {
+                for &inner in &inner_sites {
+                    for min in ["debug", "info", "warn"] {
+                        if !(outer.enabled(true, min) && !mid.enabled(false, min) && inner.enabled(true, min)) {
+                            continue;
+                        }
+                        let (o, m, i) = (Link::Span(outer, true), Link::Span(mid, false), Link::Span(inner, true));
+                        let chains: [Vec<Link>; 4] = [
+                            vec![o, m, i],
+                            vec![Link::Push(0, 11), o, m, i],
+                            vec![Link::Push2(0, 11, 1, 22), o, Link::Push(1, 33), m, Link::Push(2, 44), i],
+                            vec![Link::PushIds(7), Link::Push(2, 55), o, m, m, i],
+                        ];
+                        for chain in chains {
+                            let exits: &[NExit] = if is_async && !inner.is_async() {
+                                &[NExit::Normal, NExit::Panic]
+                            } else if is_async {
+                                &[NExit::Normal, NExit::Panic, NExit::Cancel]
+                            } else {
+                                &[NExit::Normal, NExit::Panic]
+                            };
+                            for &exit in exits {
+                                for rt in nest_rts() {
+                                    v.push(NestCase { chain: chain.clone(), min, exit, is_async, rt });
+                                }
+                            }
+                        }
+                    }
+                }
+            }
+        }
+    }
+    v
+}
+
+fn gen_nest(g: &mut Rng) -> NestCase {
+    let is_async = g.bool();
+    let min = *g.pick(&["debug", "info", "info", "warn"]);
+    let n_spans = 2 + g.usize(5);
+    let mut chain = Vec::new();
+    if g.chance(1, 6) {
+        chain.push(Link::PushIds(g.below(1000)));
+    }
+    let mut now_sync = !is_async;
+    let mut all_async = is_async;
+    for _ in 0..n_spans {
+        if g.chance(1, 3) {
+            chain.push(if g.bool() {
+                Link::Push(g.usize(3), g.below(1000))
+            } else {
+                // (two different keys: which of two values for ONE key a single push keeps is C02's business)
+                let k = g.usize(3);
+                Link::Push2(k, g.below(1000), (k + 1 + g.usize(2)) % 3, g.below(1000))
+            });
+        }
+        if !now_sync && g.chance(1, 6) {
+            now_sync = true;
+            all_async = false;
+        }
+        let site = if now_sync { *g.pick(&SYNC_SITES) } else { *g.pick(&ASYNC_SITES) };
+        chain.push(Link::Span(site, g.chance(3, 5)));
+    }
+    let exit = match g.below(4) {
+        0 => NExit::Panic,
+        1 if all_async => NExit::Cancel,
+        _ => NExit::Normal,
+    };
+    let rts = nest_rts();
+    NestCase { chain, min, exit, is_async, rt: *g.pick(&rts) }
+}
+
+/// What the one completion event of an enabled span of the chain must carry.
+struct NestWant {
+    at: usize,
+    site: NSite,
+    /// index (into the list of enabled spans) of the nearest enabled ancestor
+    parent: Option<usize>,
+    /// incoming ids in force when there is no enabled ancestor below them
+    incoming: Option<u64>,
+    amb: Vec<(&'static str, u64)>,
+    /// `at_<site>` marks of the enabled spans above and itself
+    marks: Vec<(String, u32)>,
+    /// rejected spans between this span and its nearest enabled ancestor / above it without one
+    rejected_between: usize,
+}
+
+fn nest_model(c: &NestCase) -> (Vec<NestWant>, Vec<(u32, bool)>) {
+    let mut wants: Vec<NestWant> = Vec::new();
+    let mut rets: Vec<(u32, bool)> = Vec::new();
+    let mut parent: Option<usize> = None;
+    let mut incoming: Option<u64> = None;
+    let mut amb: Vec<(&'static str, u64)> = Vec::new();
+    let mut marks: Vec<(String, u32)> = Vec::new();
+    let mut rejected = 0usize;
+    let set = |amb: &mut Vec<(&'static str, u64)>, k: usize, v: u64| {
+        amb.retain(|(key, _)| *key != AMB_KEYS[k]);
+        amb.push((AMB_KEYS[k], v));
+    };
+    for (at, link) in c.chain.iter().enumerate() {
+        match *link {
+            Link::Push(k, v) => set(&mut amb, k, v),
+            Link::Push2(k, v, k2, v2) => {
+                // (an array of pairs: within one push the FIRST value of a key wins)
+                if k2 != k {
+                    set(&mut amb, k2, v2);
+                }
+                set(&mut amb, k, v);
+            }
+            Link::PushIds(n) => {
+                incoming = Some(n);
+                parent = None;
+            }
+            Link::Span(site, en) => {
+                let enabled = site.enabled(en, c.min);
+                if site.guard() && c.exit == NExit::Normal {
+                    rets.push((at as u32, enabled));
+                }
+                if !enabled {
+                    rejected += 1;
+                    continue;
+                }
+                let key = format!("at_{}", site.name());
+                marks.retain(|(k, _)| *k != key);
+                marks.push((key, at as u32));
+                wants.push(NestWant { at, site, parent, incoming: if parent.is_none() { incoming } else { None }, amb: amb.clone(), marks: marks.clone(), rejected_between: rejected });
+                parent = Some(wants.len() - 1);
+                rejected = 0;
+            }
+        }
+    }
+    // guard forms record their return value after the spans below them: innermost first
+    rets.reverse();
+    (wants, rets)
+}
+
+fn nest_json(c: &NestCase) -> Json {
+    json!({"chain": c.chain.iter().map(|l| match l {
+                Link::Span(site, en) => format!("{}{} -> {}", site.name(), if site.when() { format!("(en={})", en) } else { String::new() }, if site.enabled(*en, c.min) { "enabled" } else { "REJECTED" }),
+                other => format!("{:?}", other),
+            }).collect::<Vec<_>>(),
+           "runtime_filter": format!("min_filter({})", c.min), "exit": format!("{:?}", c.exit), "async": c.is_async, "runtime": c.rt.name()})
+}
+
+fn check_nest(r: &mut Report, c: &NestCase, seed: u64, index: u64) {
+    r.eval();
+    let inv = (index as u32 & 0x0fff_ffff) + 1;
+    RT_PROBE.with(|p| *p.borrow_mut() = Probe { script: Script::Min(c.min), calls: Vec::new() });
+    WHEN_PROBE.with(|p| *p.borrow_mut() = Probe { script: Script::Const(true), calls: Vec::new() });
+    O_EVENTS.with(|e| e.borrow_mut().clear());
+    NRET.with(|v| v.borrow_mut().clear());
+    FAULT.with(|f| f.set(None));
+    let (outcome, ambient_after) = nest_run(c, inv);
+    let events = O_EVENTS.with(|e| std::mem::take(&mut *e.borrow_mut()));
+    let rets = NRET.with(|v| std::mem::take(&mut *v.borrow_mut()));
+    let (wants, want_rets) = nest_model(c);
+    let case = || {
+        json!({"part": "macro-nest", "seed": seed, "index": index, "case": nest_json(c), "invocation": inv,
+               "outcome": format!("{:?}", outcome), "ambient_afterwards": ambient_after.clone(),
+               "events": events.iter().map(|e| e.to_json()).collect::<Vec<_>>()})
+    };
+    let has_middle = wants.iter().any(|w| w.rejected_between > 0 && w.parent.is_some());
+    let under_rejected_root = wants.iter().any(|w| w.rejected_between > 0 && w.parent.is_none());
+    let case_class = if has_middle { "through-rejected-middle" } else if under_rejected_root { "under-rejected-root" } else { "nested-on-default-ctxt" };
+    r.observe("nest:cases", 1);
+    r.observe(&format!("nest:{}", case_class), 1);
+    r.observe(&format!("nest:runtime:{}", c.rt.name()), 1);
+    r.observe(&format!("nest:exit:{:?}:{}", c.exit, if c.is_async { "async" } else { "sync" }), 1);
+    r.observe("nest:span-events", events.len() as u64);
+    r.nontrivial(&("macro-nest", c));
+    let sig = |class: &str, what: &str| format!("C05:macro:completed-span:{}:{}", class, what);
+
+    if outcome.is_err() != (c.exit == NExit::Panic) {
+        r.violation(&sig(case_class, "unexpected-panic"), &format!("outcome {:?}", outcome), case());
+        return;
+    }
+    // after everything the ambient context is empty again
+    let left_inside = outcome.as_ref().ok().cloned().unwrap_or_default();
+    if !ambient_after.is_empty() || !left_inside.is_empty() {
+        r.violation(
+            &sig(case_class, "ambient-context-not-empty-afterwards"),
+            &format!("ambient properties left behind: {:?} / {:?}", left_inside, ambient_after),
+            case(),
+        );
+    }
+    // exactly one completion event per enabled span, none for a rejected one; innermost first
+    if events.len() != wants.len() || events.iter().any(|e| e.get("evt_kind") != Some("span")) {
+        r.violation(
+            &sig(case_class, &format!("completion-count-{}-of-{}", events.len().min(9), wants.len())),
+            &format!("{} event(s) at the emitter, the chain has {} enabled span(s)", events.len(), wants.len()),
+            case(),
+        );
+        return;
+    }
+    if c.exit == NExit::Normal && rets != want_rets {
+        r.violation(&sig(case_class, "complete-returned"), &format!("guard.complete() returned {:?} (depth, value), expected {:?}", rets, want_rets), case());
+    }
+    let ev = |i: usize| &events[wants.len() - 1 - i];
+    for (i, w) in wants.iter().enumerate() {
+        let e = ev(i);
+        let class = if w.rejected_between > 0 && w.parent.is_some() {
+            "through-rejected-middle"
+        } else if w.rejected_between > 0 {
+            "under-rejected-root"
+        } else {
+            "nested-on-default-ctxt"
+        };
+        r.observe(&format!("nest:completion-events-judged:{}", class), 1);
+        let mut wrong: Vec<(&str, String)> = Vec::new();
+        let want_name = format!("{} {{inv}}", w.site.name());
+        if e.get("span_name") != Some(want_name.as_str()) {
+            wrong.push(("wrong-name-or-order", format!("span_name={:?}, expected {:?} (completions arrive innermost first)", e.get("span_name"), want_name)));
+        }
+        if e.get("inv") != Some(inv.to_string().as_str()) || e.get("depth") != Some(w.at.to_string().as_str()) {
+            wrong.push(("own-props-missing", format!("inv={:?} depth={:?}, the span's own properties are inv={} depth={}", e.get("inv"), e.get("depth"), inv, w.at)));
+        }
+        // ids
+        let (t, s, p) = (e.get("trace_id"), e.get("span_id"), e.get("span_parent"));
+        if t.map(|t| t.len()) != Some(32) || s.map(|s| s.len()) != Some(16) {
+            wrong.push(("ids-missing", format!("trace_id={:?} span_id={:?}", t, s)));
+        }
+        let incoming = w.incoming.map(incoming_ids);
+        let (want_trace, want_parent): (Option<String>, Option<String>) = match (w.parent, &incoming) {
+            (Some(pi), _) => (ev(pi).get("trace_id").map(|x| x.to_string()), ev(pi).get("span_id").map(|x| x.to_string())),
+            (None, Some(ids)) => (ids.trace_id().map(|x| x.to_string()), ids.span_id().map(|x| x.to_string())),
+            (None, None) => (None, None),
+        };
+        if (w.parent.is_some() || incoming.is_some()) && t.map(|x| x.to_string()) != want_trace {
+            wrong.push(("wrong-trace-id", format!("trace_id={:?}, the enclosing enabled span / incoming context is in trace {:?}", t, want_trace)));
+        }
+        if p.map(|x| x.to_string()) != want_parent {
+            wrong.push(("wrong-span-parent", format!("span_parent={:?}, expected {:?} (the nearest ENABLED span above; a rejected span contributes nothing)", p, want_parent)));
+        }
+        for (j, _) in wants.iter().enumerate() {
+            if j != i && ev(j).get("span_id") == s {
+                wrong.push(("span-id-not-fresh", format!("span_id={:?} is also the span id of the span at depth {}", s, wants[j].at)));
+            }
+            if j != i && w.parent.is_none() && incoming.is_none() && wants[j].parent.is_none() && ev(j).get("trace_id") == t {
+                wrong.push(("trace-id-not-fresh", format!("trace_id={:?} is shared by two spans that have no enabled span above them", t)));
+            }
+        }
+        // ambient properties pushed around / between the spans above
+        for (k, v) in &w.amb {
+            if e.get(k) != Some(v.to_string().as_str()) {
+                wrong.push(("ambient-props-missing", format!("{}={:?}, pushed as {} above this span", k, e.get(k), v)));
+            }
+        }
+        for k in AMB_KEYS {
+            if !w.amb.iter().any(|(key, _)| *key == k) && e.get(k).is_some() {
+                wrong.push(("ambient-props-stray", format!("{}={:?} was never pushed above this span", k, e.get(k))));
+            }
+        }
+        // marks of the enabled spans above (and its own); a rejected span leaves none
+        let got_marks: Vec<(String, String)> = {
+            let mut seen: Vec<(String, String)> = Vec::new();
+            for (k, v, _) in &e.props {
+                if k.starts_with("at_") && !seen.iter().any(|(sk, _)| sk == k) {
+                    seen.push((k.clone(), v.clone()));
+                }
+            }
+            seen.sort();
+            seen
+        };
+        let mut want_marks: Vec<(String, String)> = w.marks.iter().map(|(k, d)| (k.clone(), d.to_string())).collect();
+        want_marks.sort();
+        if got_marks != want_marks {
+            wrong.push(("wrong-frames-above", format!("the properties of the span frames visible on the event are {:?}, expected {:?} (enabled spans above + itself)", got_marks, want_marks)));
+        }
+        // lvl / err per exit path
+        let (want_lvl, want_err) = match c.exit {
+            NExit::Panic => (Some("error"), Some("panicked")),
+            _ => (w.site.lvl(), None),
+        };
+        if e.get("lvl") != want_lvl || e.get("err") != want_err {
+            wrong.push(("wrong-lvl-or-err", format!("lvl={:?} err={:?}, the exit path calls for {:?} / {:?}", e.get("lvl"), e.get("err"), want_lvl, want_err)));
+        }
+        if !matches!(e.extent, Some((Some(s), end)) if s < end) {
+            wrong.push(("wrong-extent", format!("extent={:?} (expected a range)", e.extent)));
+        }
+        for (what, text) in wrong {
+            r.violation(&sig(class, what), &format!("span at depth {} ({}): {}", w.at, w.site.name(), text), case());
+        }
+    }
+    if r.wants_sample() && has_middle && index % 997 == 0 {
+        r.sample(|| case());
+    }
+}
+
 fn main() {
     let args = Args::parse();
     let mut r = Report::new(
         "C05",
         &args,
         "one evaluation = one guard program (a seeded SpanGuard operation sequence under a filter and a clock script) or one invocation of a hand-written macro form with one exit path; \
-         non-trivial = distinct (filter outcome, in/out of frame, operation-kind sequence, clock-movement sequence) tuples with at least one builder operation, plus distinct (form, exit path, enabled) triples",
+         non-trivial = distinct (filter outcome, in/out of frame, operation-kind sequence, clock-movement sequence) tuples with at least one builder operation, plus distinct (form, exit path, enabled) triples, \
+         plus distinct guard programs with a panicking / re-entrant completion, distinct (site, exit path, runtime, fault of the emitter / custom completion) tuples and distinct chains of nested span sites (sites, enabled / rejected, pushes, exit, runtime)",
     );
 
     init_once_runtimes();
@@ -2305,6 +3892,41 @@ fn main() {
                 {
                     check_once(&mut r, f, exit, fs, sel, 1);
                     check_once(&mut r, f, exit, fs, sel, 2);
+                }
+            }
+        } else if case.get("part").and_then(|v| v.as_str()) == Some("guard-fault") {
+            let seed = case.get("seed").and_then(|v| v.as_u64()).unwrap_or(args.seed);
+            let index = case.get("index").and_then(|v| v.as_u64()).unwrap_or(0);
+            let p = gen_fault_program(&mut Rng::stream(seed, &[5, 2, index]));
+            check_fault_program(&mut r, &p, seed, index);
+            check_fault_program(&mut r, &p, seed, index);
+        } else if case.get("part").and_then(|v| v.as_str()) == Some("macro-nest") {
+            let seed = case.get("seed").and_then(|v| v.as_u64()).unwrap_or(args.seed);
+            let index = case.get("index").and_then(|v| v.as_u64()).unwrap_or(0);
+            let directed = nest_directed();
+            let c = match directed.get(index as usize) {
+                Some(c) => c.clone(),
+                None => gen_nest(&mut Rng::stream(seed, &[5, 4, index])),
+            };
+            check_nest(&mut r, &c, seed, index);
+            check_nest(&mut r, &c, seed, index);
+        } else if case.get("part").and_then(|v| v.as_str()) == Some("macro-fault") {
+            let text = |k: &str| case.get(k).and_then(|v| v.as_str()).unwrap_or("").to_string();
+            let all = once_forms();
+            for (fi, exit, fs, sel, k) in fault_jobs(&all) {
+                let f = &all[fi];
+                if f.name == text("form") && format!("{:?}", exit) == text("exit") && sel.name() == text("runtime") && fs.kind == text("filter_kind") && format!("{:?}", k) == text("fault") {
+                    check_once_with(&mut r, f, exit, fs, sel, 1, Some(k));
+                    check_once_with(&mut r, f, exit, fs, sel, 2, Some(k));
+                }
+            }
+        } else if case.get("part").and_then(|v| v.as_str()) == Some("macro-fault-thread-exit") {
+            let text = |k: &str| case.get(k).and_then(|v| v.as_str()).unwrap_or("").to_string();
+            let site = case.get("site").and_then(|v| v.as_u64()).unwrap_or(0) as usize;
+            for (which, sel, k) in thread_exit_jobs() {
+                if which == site && sel.name() == text("runtime") && format!("{:?}", k) == text("fault") {
+                    check_thread_exit(&mut r, which, sel, k, 1);
+                    check_thread_exit(&mut r, which, sel, k, 2);
                 }
             }
         } else if case.get("part").and_then(|v| v.as_str()) == Some("macro") {
@@ -2388,6 +4010,54 @@ fn main() {
     });
     r.set("filter_once_forms", json!(oall.iter().map(|f| f.name).collect::<Vec<_>>()));
     r.set("filter_once_sites_exit_paths_filters_runtimes", json!(ojobs.len()));
+
+    // (d) guard programs whose completions panic (once) or re-enter
+    let nd = if cfg!(miri) { args.get_u64("fault_programs", 24) } else { args.n(60_000, 600_000) };
+    par_cases(&mut r, &args, nd, |i, r| {
+        let mut g = Rng::stream(seed, &[5, 2, i]);
+        let p = gen_fault_program(&mut g);
+        check_fault_program(r, &p, seed, i);
+    });
+
+    // (e) macro sites whose emitter / custom completion panics (once) or re-enters while the span is being completed
+    let fjobs = fault_jobs(&oall);
+    let frounds = if cfg!(miri) { 1 } else { args.n(2, 20) };
+    par_cases(&mut r, &args, fjobs.len() as u64 * frounds, |i, r| {
+        // under Miri a 96th of the sites per run, rotating with the seed
+        if cfg!(miri) && (i + seed) % 96 != 0 {
+            return;
+        }
+        let (fi, exit, fs, sel, k) = fjobs[(i % fjobs.len() as u64) as usize];
+        check_once_with(r, &oall[fi], exit, fs, sel, i as u32 + 1, Some(k));
+    });
+    let txjobs = thread_exit_jobs();
+    let txrounds = if cfg!(miri) { 1 } else { args.n(3, 30) };
+    par_cases(&mut r, &args, txjobs.len() as u64 * txrounds, |i, r| {
+        if cfg!(miri) && (i + seed) % 14 != 0 {
+            return;
+        }
+        let (which, sel, k) = txjobs[(i % txjobs.len() as u64) as usize];
+        check_thread_exit(r, which, sel, k, i as u32 + 1);
+    });
+    r.set("fault_sites_exit_paths_filters_runtimes_faults", json!(fjobs.len()));
+
+    // (f) nesting through filtered-out spans on the default ambient context
+    let directed = nest_directed();
+    let nrand = if cfg!(miri) { args.get_u64("nest_programs", 12) } else { args.n(40_000, 400_000) };
+    par_cases(&mut r, &args, directed.len() as u64 + nrand, |i, r| {
+        let c = match directed.get(i as usize) {
+            Some(c) => {
+                // under Miri a 256th of the directed cases per run, rotating with the seed
+                if cfg!(miri) && (i + seed) % 256 != 0 {
+                    return;
+                }
+                c.clone()
+            }
+            None => gen_nest(&mut Rng::stream(seed, &[5, 4, i])),
+        };
+        check_nest(r, &c, seed, i);
+    });
+    r.set("nest_directed_cases", json!(directed.len()));
 
     std::process::exit(r.finish());
 }
